@@ -115,8 +115,9 @@ prop("C07", "a request completes only on its own acknowledgement", "exploration"
      "right id / wrong kind, duplicates of acks already sent, unsolicited CONNACK / PINGRESP), each foreign item followed by a "
      "sync marker; at most one wrong-length SUBACK, sent last. Oracle on the global event log: return(r) after sent(own final "
      "ack of r); PUBREL after PUBREC; nobody returns while its ack is unsent; results/codes as sent; ErrInvalidSubAck on a count "
-     "mismatch. Non-trivial = >= 2 requests outstanding and >= 1 foreign item; distinct = FNV-64 of the case JSON.",
-     [dict(tests="^TestVerifC07_AckRouting$", checks_quick=2500, checks_thorough=75000, shards=12),
+     "mismatch. Non-trivial = >= 2 requests outstanding and >= 1 foreign item; distinct = FNV-64 of the case JSON. SlowAck: a request whose acknowledgement takes longer than two keep-alive periods (WithKeepAlive(1)) while other requests are made and completed: it must still complete on its own acknowledgement (cases of about 2.5 s). Publishes may carry identifiers of their own: below the counter (a re-used Message), or equal to the identifier of a concurrent Subscribe / Unsubscribe (different kinds do not share identifiers); an unsolicited packet may be glued to the next one.",
+     [dict(tests="^TestVerifC07_SlowAck$", checks_quick=2, checks_thorough=12, shards=4, shards_quick=1),
+      dict(tests="^TestVerifC07_AckRouting$", checks_quick=2500, checks_thorough=75000, shards=12),
       dict(tests="^TestVerifC07_AckRouting$", race=True, checks_quick=300, checks_thorough=9000, shards=4)])
 
 prop("C19", "errors keep their cause and their retry handle", "exploration",
